@@ -63,6 +63,8 @@ def observe(g, deep=True):
             conn.append((gen_dsg.label(n), _safe(lambda: tuple(sorted(
                 tuple(sorted((gen_dsg.label(a), gen_dsg.label(b)) for a, b in edges)) for edges in n.iter_conn_edges(g))))))
     o['conn_sets'] = tuple(conn)
+    o['constraints'] = tuple((cc.type.name, tuple(gen_dsg.label(n) for n in cc.nodes)) for cc in g.get_choice_constraints())
+    o['des_var_nodes'] = tuple(gen_dsg.label(n) for n in g.des_var_nodes)
     o['des_var_values'] = tuple(sorted((gen_dsg.label(n), repr(v)) for n, v in g.des_var_values.items()))
     o['metric_values'] = tuple(sorted((gen_dsg.label(n), repr(v)) for n, v in g.metric_values.items()))
     return o
@@ -204,6 +206,31 @@ def _run(trace, log, stats, cur):
             e = sets[op[3] % len(sets)]
             new = (g.get_for_apply_connection_choice(c, e), f'apply connection {gen_dsg.label(c)} set {op[3] % len(sets)} on '
                                                            f'#{op[1] % len(pool)}')
+        elif kind == 'constrain':
+            # "constraining choices on a copy": LINKED between two not yet constrained selection choices with equal option
+            # counts (or two discrete design-variable nodes with equal option counts)
+            from adsg_core.graph.adsg_basic import ChoiceConstraintType
+            from adsg_core.graph.adsg_nodes import DesignVariableNode
+            cp = g.copy()
+            taken = {n for cc in cp.get_choice_constraints() for n in cc.nodes}
+            sels = sorted((n for n in cp.graph.nodes if isinstance(n, SelectionChoiceNode) and n not in taken),
+                          key=gen_dsg.label)
+            by_n = {}
+            for n in sels:
+                by_n.setdefault(len(cp.get_option_nodes(n)), []).append(n)
+            pairs = [v[:2] for k_, v in sorted(by_n.items()) if len(v) >= 2 and k_ >= 2]
+            dvs = sorted((n for n in cp.graph.nodes if isinstance(n, DesignVariableNode) and n.is_discrete
+                          and n not in taken), key=gen_dsg.label)
+            by_d = {}
+            for n in dvs:
+                by_d.setdefault(len(n.options), []).append(n)
+            pairs += [v[:2] for k_, v in sorted(by_d.items()) if len(v) >= 2]
+            if not pairs:
+                continue
+            pair = pairs[op[2] % len(pairs)]
+            res = cp.constrain_choices(ChoiceConstraintType.LINKED, pair, remove_infeasible_choices=False)
+            new = (res, f'copy of #{op[1] % len(pool)} with LINKED({gen_dsg.label(pair[0])}, {gen_dsg.label(pair[1])})')
+            stats['probe:constraint_added'] += 1
         elif kind == 'confirmed':
             new = (g.get_confirmed_graph(), f'get_confirmed_graph of #{op[1] % len(pool)}')
         elif kind == 'set_values':
@@ -261,14 +288,20 @@ def _run(trace, log, stats, cur):
 def generate(seed, tier='quick', index=0):
     s = Streams(seed)
     rng = s('gen')
-    spec = gen_dsg.gen_selection_spec(rng, n_incompat_max=rng.choice([0, 0, 2]), p_cycle=0.0, acyclic=True,
-                                      p_shared=rng.choice([0.0, 0.3]), max_choices=rng.choice([1, 2, 3]))
+    spec = gen_dsg.gen_tree_spec(rng, n_incompat_max=rng.choice([0, 0, 2]), max_choices=rng.choice([1, 2, 3]))
+    spec = gen_dsg.clean_incompat(spec)
     spec = gen_dsg.add_dv_metrics(rng, spec)
+    if rng.random() < 0.35:
+        # constraint-friendly: further independent two-option choices at the start node (pairs to link)
+        for c in range(rng.choice([2, 4])):
+            names = [f'N{200 + 10 * c + j}' for j in range(2)]
+            spec['nodes'] += names
+            spec['sel'].append([f'K{c}', spec['start'][0], names])
     if rng.random() < 0.6:
         spec = gen_dsg.add_conn_choice(rng, spec, p_group=rng.choice([0.0, 0.5, 0.9]), max_side=2)
     orng = s('ops')
     kinds = ['copy', 'apply_sel', 'apply_sel', 'apply_sel', 'apply_conn', 'apply_conn', 'confirmed', 'set_values',
-             'set_values_inplace', 'export', 'decode', 'decode', 'read']
+             'set_values_inplace', 'export', 'decode', 'decode', 'read', 'constrain', 'constrain']
     ops = [[orng.choice(kinds), orng.randrange(64), orng.randrange(64), orng.randrange(64)]
            for _ in range(orng.randint(3, 9))]
     return {'property': PROPERTY, 'engine': ENGINE, 'seed': seed, 'spec': spec, 'ops': ops,
@@ -324,7 +357,7 @@ def sample(trace):
 RULE = ('Each run generates a model (selection choices, optionally a connection choice with grouping connectors over '
         'conditional members and exclusions, design-variable and metric nodes) and a history of 3-9 operations over a pool of '
         'live graph objects: copy, apply a selection choice, apply a connection set, get_confirmed_graph, store values on a '
-        'copy / in place, export, processor decodes (instances join the pool), pure reads. After every '
+        'copy / in place, constrain choices on a copy, export, processor decodes (instances join the pool), pure reads. After every '
         'operation all live objects are re-observed in a seeded order (nodes, edges, feasible, final, next choices, option '
         'lists, valid connection sets, connector degree constraints, stored values). evaluations = runs; non-trivial = >= 1 '
         'deriving operation and >= 2 re-observations; distinct = distinct (spec, ops).')
